@@ -1,7 +1,7 @@
 (* Props/C02.v — acknowledged commits survive crashes *)
 From Coq Require Import List NArith Arith Bool.
 From SKV Require Import Base.Lex Txn.WriteSet Spec.Store.
-From SKV Require Import Crash.Fs Crash.FsSpec Crash.Fs_proofs Crash.Proto Crash.ProtoSpec Crash.ProtoRefute Crash.ProtoCheck Crash.Proto_proofs.
+From SKV Require Import Crash.Fs Crash.FsSpec Crash.Fs_proofs Crash.Proto Crash.ProtoSpec Crash.ProtoRefute Crash.ProtoCheck Crash.Proto_proofs Crash.ProtoRecovery_proofs.
 Import ListNotations.
 
 (* recovery as a specification: the state after the first n commits; states of longer prefixes
@@ -50,8 +50,23 @@ Proof. exact split_marked_flushed_refuted. Qed.
 Theorem C02_relog_accepted : relog_accepted_stmt.
 Proof. exact relog_accepted. Qed.
 
-Theorem C02_recovery_nonlast_split_refuted : recovery_nonlast_split_refuted_stmt.
-Proof. exact recovery_nonlast_split_refuted. Qed.
+(* regression record of the recovery before 372cb98 (finding F47), and the repaired recovery on the same state *)
+Theorem C02_recovery_nonlast_split_old_recovery_refuted : recovery_nonlast_split_old_recovery_refuted_stmt.
+Proof. exact recovery_nonlast_split_old_recovery_refuted. Qed.
+
+Theorem C02_repaired_nonlast_recovery : repaired_nonlast_recovery_stmt.
+Proof. exact repaired_nonlast_recovery. Qed.
+
+(* the recovery of the repaired code, for every split into pieces, is accepted after either crash;
+   a second crash of either kind at any point inside it recovers what had to survive the first *)
+Theorem C02_recovery_pieces_accepted : recovery_pieces_accepted_stmt.
+Proof. exact recovery_pieces_accepted. Qed.
+
+Theorem C02_generations_compose_pieces : generations_compose_pieces_stmt.
+Proof. exact generations_compose_pieces. Qed.
+
+Theorem C02_crash_in_recovery_safe : crash_in_recovery_safe_stmt.
+Proof. exact crash_in_recovery_safe. Qed.
 
 Theorem C02_p2s_needed : p2s_needed_stmt.
 Proof. exact p2s_needed. Qed.
